@@ -107,6 +107,25 @@ def check_family(prog, res, fam, rule="C12"):
                 if sv is not None and wv is not None and wv != sv:
                     bad = "position %d (%s): writer value %s = %s, layout requires %s" % (i, wk, show(ws.value)[:60] if ws.value else "?", wv, sv)
                     break
+        if bad is not None and len(toks) != len(want):
+            # a single value written by the same loop as the repeated group that follows it (`once(a).chain(rest).for_each(write)`):
+            # `K, K*` and `K*` cannot be told apart by counting tokens -- if the two sequences agree once such pairs are merged the
+            # state is undecided, not a mismatch
+            def merged(seq):
+                out = []
+                for k in seq:
+                    if out and k.endswith("*") and out[-1].rstrip("*") == k.rstrip("*"):
+                        out[-1] = k
+                    elif out and out[-1].endswith("*") and out[-1].rstrip("*") == k.rstrip("*"):
+                        continue
+                    else:
+                        out.append(k)
+                return out
+            a_, b_ = merged([k for k, v, s_ in toks]), merged([sk for sk, sv in want])
+            if len(a_) == len(b_) and all(kinds_match(x, y) for x, y in zip(a_, b_)):
+                res.undecided += 1
+                unknown_states += 1
+                continue
         if bad is None:
             res.discharged += 1
             if n_states <= 2:
